@@ -40,7 +40,7 @@ TIMEOUT = {'quick': 300, 'thorough': 3000}
 
 FKINDS = ['pass_true', 'pass_obj', 'rej_false', 'rej_none', 'rej_zero', 'rej_empty',
           'edit_new', 'edit_inplace_true', 'edit_inplace_ret', 'edit_inplace_rej', 'empty_dict',
-          'edit_new_drop', 'negate_value', 'edit_userdict', 'empty_chainmap']
+          'edit_new_drop', 'negate_value', 'edit_userdict', 'empty_chainmap', 'edit_names']
 
 
 def apply_script(kind, n, data):
@@ -71,6 +71,9 @@ def apply_script(kind, n, data):
         new = dict(data)
         new['value'] = not data.get('value')
         return new
+    if kind == 'edit_names':
+        # no item name is reserved: items named like parameters of the delivery path
+        return {**data, 'etype': f"t{n}", 'data': n, 'dest': None, 'name': 'n'}
     if kind == 'edit_userdict':
         # any MutableMapping is new event data, not only a dict
         return collections.UserDict({**data, f"u{n}": n})
@@ -139,6 +142,11 @@ def run_pipeline_batch(batch, ctx):
             hist.log('recv', self.name, etype, dict(data))
             return 'handled'
 
+    class DestP(edzed.AddonPersistence, Dest):
+        """A destination with the persistence add-on in its hierarchy (as Input, Counter, FSM)."""
+        def _restore_state(self, state):
+            self.set_output(state)
+
     class Src(edzed.SBlock):
         def init_regular(self):
             self.set_output(0)
@@ -159,7 +167,7 @@ def run_pipeline_batch(batch, ctx):
     def build():
         Src('src')
         for ci, case in enumerate(batch):
-            Dest(f"dest{ci}")
+            (DestP if ci % 3 == 1 else Dest)(f"dest{ci}")
             filters = [mk_filter(ci, n, k) for n, k in enumerate(case['kinds'])]
             if case['as'] == 'tuple':
                 filters = tuple(filters)
@@ -523,6 +531,7 @@ def ctrl_cases(ctx):
                                                     {'k': 'x', 'source': 'cfg'}])
                                         for _ in range(rng.randrange(2, 9))],
                'byname': rng.random() < 0.5, 'inverted': rng.random() < 0.4,
+               'late_filters': rng.random() < 0.3,
                'debug': rng.random() < 0.5}
 
 
@@ -552,11 +561,19 @@ def run_ctrl(case, ctx):
 
     def build():
         ctrl = edzed.Input('ctrl', initdef=case['vals'][0])
+        ctrl2 = edzed.Input('ctrl2', initdef='two')
         dest = Dest('dest')
         late = edzed.Input('late')      # no initdef: initialised by an event only
         dinit = Dest('dinit')
+        starter = Starter('starter', x_ev=None, x_late=late)
+        if case.get('late_filters'):
+            # the application finalizes the circuit explicitly and creates its events (with
+            # filters naming their blocks) afterwards, before the start
+            ctx.count('filters_created_after_explicit_finalize')
+            edzed.get_circuit().finalize()
         ref = 'ctrl'
-        if case['inverted']:
+        if case['inverted'] and not case.get('late_filters'):
+            # (an inverter cannot be created in a finalized circuit any more)
             ref = '_not_ctrl'
         elif not case['byname']:
             ref = ctrl
@@ -568,8 +585,11 @@ def run_ctrl(case, ctx):
         objs['ev_ao2'] = edzed.Event(
             dest, 'ao2', efilter=edzed.DataEdit.add_output('c', src_ref).add_output('d', src_ref))
         objs['ev_ao3'] = edzed.Event(dest, 'ao3', efilter=edzed.DataEdit.add_output('e', src_ref))
+        # one chain re-using a key for two different sources
+        objs['ev_ao4'] = edzed.Event(dest, 'ao4', efilter=edzed.DataEdit.add_output(
+            'v', src_ref).rename('v', 'first').add_output('v', 'ctrl2' if case['byname'] else ctrl2))
         ev_init = edzed.Event(dinit, 'i', efilter=NotIfInit('late' if case['byname'] else late))
-        Starter('starter', x_ev=ev_init, x_late=late)
+        starter.x_ev = ev_init
         objs['ctrl'], objs['late'] = ctrl, late
         return objs
 
@@ -582,7 +602,7 @@ def run_ctrl(case, ctx):
             del hist.entries[:]
             ret = objs['ev'].send(src, k=k)
             out = objs['ctrl'].output
-            exp = bool(out) != case['inverted']
+            exp = bool(out) != (case['inverted'] and not case.get('late_filters'))
             recv = [e for e in hist.kinds('recv') if e[4] == 'e']
             ctx.count('ifoutput_checks')
             if ret is not exp or len(recv) != int(exp):
@@ -596,6 +616,16 @@ def run_ctrl(case, ctx):
             recv = [e for e in hist.kinds('recv') if e[4] == 'ao']
             if len(recv) != 1 or recv[0][5].get('c') != out or type(recv[0][5].get('c')) is not type(out):
                 ctx.violation(case, 'add_output', f"add_output: control output {out!r}, got {recv}")
+            try:
+                objs['ev_ao4'].send(src, k=k)
+                recv = [e for e in hist.kinds('recv') if e[4] == 'ao4']
+                if len(recv) != 1 or recv[0][5].get('first') != out or recv[0][5].get('v') != 'two':
+                    ctx.violation(case, 'add_output',
+                                  f"add_output('v', A).rename('v', 'first').add_output('v', B): "
+                                  f"A={out!r}, B='two', got {recv}")
+            except Exception as err:    # pylint: disable=broad-except
+                ctx.violation(case, 'add_output', f"add_output chain over two sources: {err!r}")
+                return False
             for evname, keys in (('ao2', ('c', 'd')), ('ao3', ('e',))):
                 try:
                     objs['ev_' + evname].send(src, k=k)
